@@ -92,7 +92,8 @@ CLAIMED = {
           "DESIGN.md 0.3 + 7 C11", "Lean 4 proof (path parser on the dot-string class) + reference grammar as executable judge + differential correspondence (parse, conv probes)",
           "quoted local parts, source routes, address literals and the decoded parameter values are decided by the reference-grammar judge and the correspondence; four lenient-parser classes are known findings"),
  "C12": C("C12_caps_exact proved for all configurations and TLS states (all limits and mechanism lists), C12_ehlo_reply, C12_helo_none, "
-          "C12_disabled_504 proved; the complete 3072-point configuration space enumerated on the real server (TLS-active points over a real "
+          "C12_disabled_504 proved; advertised <=> honoured: caps_keywords (the keywords of the list, in order), C12_starttls_honoured (listed exactly when the command is accepted, else 502), "
+          "C12_auth_honoured (listed exactly when authentication is possible; 523 where it is not allowed), C12_keyword_iff_enabled (SMTPUTF8, REQUIRETLS, BINARYMIME, DSN, RRVS, LIMITS); the complete 3072-point configuration space enumerated on the real server (TLS-active points over a real "
           "handshake) with one probe command per extension.",
           "DESIGN.md 7 C12", "Lean 4 proof + exhaustive configuration enumeration (conv probe)", "crypto/tls not modelled"),
  "C13": C("Proved: C13_mechanism (conn.go's statusCollector as it is built - one buffered channel per distinct address with capacity = "
@@ -145,7 +146,8 @@ CLAIMED = {
           'which inputs count as protocol errors is decided by monitor + correspondence; the bound on buffered input is a property of the modelled bufio, not observed'),
  "C20": C("PARTIAL. Proved: C20_second_close, C20_temp_errors (Serve survives any run of temporary errors, delays <= 1 s) on the lifecycle model; "
           "own_verdict_all_schedules and never_blocked_step on the chunked-delivery interleaving model for every schedule; pinned-tree "
-          "counterexamples kept as regression witnesses. accept probe over outcome sequences, sched probe over forced delivery/Close/Shutdown orders "
+          "counterexamples kept as regression witnesses; the start of a delivery against Conn.Close (model LateStart, every schedule): C20_late_start_no_panic, "
+          "C20_late_start_never_calls (repaired code), C20_late_start_pinned_panics (the tree before c1a4e24), C20_late_start_window_remains (what no small patch closes). accept probe over outcome sequences, sched probe over forced delivery/Close/Shutdown orders "
           "with goroutine-leak counting, connections stuck in an implicit-TLS handshake, and the whole harness replayed under Go's race detector (both tiers).",
           "DESIGN.md 7 C20", "Lean 4 proof of interleaving/lifecycle models + schedule-forcing differential probes (accept, sched)",
           "the Go memory model, scheduler fairness and kernel-blocked goroutines are not expressible in the model"),
